@@ -23,9 +23,9 @@ def harnesses():
                      tier=tier, inst=inst, stubs=MIXDIV, abstract=True, timeout=900,
                      domain="FULL (a, m); div_rem replaced by a tagged mixing function", free_bits=2 * b,
                      fns=["reduce_mod"]))
-    for b in [1, 2, 3, 4, 5, 6, 7, 8]:
+    for b in [1, 2, 3, 4, 7, 8]:
         for w, fn in enumerate(NAMES):
-            if b in (3, 4, 5, 6) and w != 2:
+            if b in (3, 4) and w != 2:
                 continue   # 3 and 4 bits: mul_mod only (the specification the compositional pow_mod harnesses rely on)
             quick = (b == 8 and w in (0, 1)) or (b == 2 and w < 2)   # mul_mod at 2 bits: 270-800 s, thorough
             out.append(H("c10_narrow_%d_%s" % (b, fn), "C10", "c10::narrow::<%d,%d>" % (b, w), unwind=12,
@@ -34,14 +34,16 @@ def harnesses():
                          domain="every (a, b, m) of the width incl. m = 0, 1 and unreduced operands"
                                 + ("; exponent < 8" if w == 3 else "") + "; real code, slice kernels pinned unreachable",
                          free_bits=3 * b, fns=[fn], covers_required=["zero-modulus"] + (["unreduced-operand"] if b > 1 else [])))
-    for b in [2, 3, 4, 5, 6]:   # 7 and 8 bits: no result in 1500 s (left-to-right oracle against the right-to-left loop)
+    # 5/6 bits finish (33 s, 400 s) but mul_mod's specification is decided at {1,2,3,4,7,8} only (5/6: 8 GB and growing, stopped);
+    # 7 and 8 bits: no result in 1500 s (left-to-right oracle against the right-to-left loop)
+    for b in [2, 3, 4]:
         out.append(H("c10_pow_mod_spec_%d" % b, "C10", "c10::pow_mod_spec::<%d>" % b, unwind=b + 3,
                      tier="quick" if b in (3, 4) else "thorough", timeout=1800, inst="Uint<%d,1>" % b,
                      stubs=[("ruint::Uint::mul_mod", "stubs::mul_mod_spec1")], role="c10::pow_mod_spec",
                      domain="every (a, e, m) of the width incl. m = 0, 1 and a >= m; compositional: mul_mod replaced by its "
                             "specification (decided against the real code by c10_narrow_*_mul_mod)", free_bits=3 * b,
                      fns=["pow_mod"], covers_required=["zero-modulus", "unreduced-operand"] + (["nilpotent-base"] if b >= 3 else [])))
-    for b in [1, 2, 3, 4, 5, 6, 8]:
+    for b in [1, 2, 3, 4]:   # 5 bits and up: the same loop costs 850 s and more per harness in C12's probes - not registered
         cov = [] if b == 1 else (["exists"] if b == 2 else ["exists", "unreduced"])
         out.append(H("c10_inv_mod_narrow_%d" % b, "C10", "c12::inv_mod_narrow::<%d>" % b, unwind={1: 3, 2: 3, 3: 4, 4: 5, 5: 6, 6: 6, 8: 8}[b],
                      tier="quick" if b in (1, 3) else "thorough", timeout=3600, inst="Uint<%d,1>" % b,
